@@ -1,608 +1,18 @@
-import UbxModel.Proofs.ServerSuccess
-import UbxModel.Proofs.ServerSuccessCfg
-import UbxModel.Proofs.ServerSent
-import UbxModel.Proofs.ServerFail
-import UbxModel.Proofs.ServerIndependencePoll
-import UbxModel.Props.C02
-import UbxModel.Props.C03
+import UbxModel.Proofs.AnsweredKth
 /-!
 # C06 — A correct answer to the k-th transmission is returned after exactly k sends
-(`set()`; one attempt and the hand-over from a failed attempt to the next; `poll()`/`set_mga()` and
-the k-fold composition are still to be added)
+
+Property theorems only; the premises are defined in `Proofs/AnsweredKth.lean`:
+* `SetAnswered env reg delay req f lg` (resp. `MgaAnswered`, `PollAnswered`): starting from log `lg`, the
+  transmission succeeds and the receive calls that start before its deadline deliver, in any chunking, benign
+  traffic (`Quiet`: a C02 grammar stream none of whose valid frames is awaited) followed by the wire form of the
+  answer `f` (configuration polls: response, then benign traffic and the ACK-ACK before the re-armed deadline);
+* `SetFailsThen … Q k p lg` (resp. `Mga…`, `Poll…`): `k` attempts fail by the model's own outcome, then `Q` holds;
+* `EnvFailsThen env F delay wire Q k lg`: the same said about the environment alone — per attempt the
+  transmission fails, or the reads of its window contain no checksum-valid frame of an awaited class/id
+  (`ContainsAwaited`; silence, garbage, corrupted and truncated frames, unrelated traffic).
+The `_env` theorems are the ones to read.
 -/
-namespace C06
-open Ubx Spec
-
-/-- benign traffic: items that queue nothing but error markers under the filter — filler, NMEA,
-    corrupted frames, and valid frames whose class/id is not awaited -/
-def Quiet (F : List Cid) (items : List Item) : Prop := Markers (expectedPackets (some F) items)
-
-/-- the awaited stream: benign items, then filler `g` and the answer frame -/
-def stream (items : List Item) (g : List Nat) (cls id : Nat) (pl : List Nat) : List Nat :=
-  items.flatMap Item.bytes ++ (g ++ wire cls id pl)
-
-/-- what a restarted, emptied parser makes of the awaited stream: only markers before the very last
-    byte, the answer with it -/
-theorem stream_queues (p0 : Parser) (hst : p0.st = .init) (hq : p0.queue = []) (F : List Cid)
-    (hF : p0.filter = some F) (items : List Item) (hok : ∀ it ∈ items, it.ok) (hquiet : Quiet F items)
-    (g : List Nat) (hg : noSyncPair g = true) (cls id : Nat) (pl : List Nat) (hpl : pl.length ≤ 1000)
-    (hcid : (⟨cls, id⟩ : Cid) ∈ F) :
-    let S := stream items g cls id pl
-    S ≠ [] ∧ (p0.process S.dropLast).queue = expectedPackets (some F) items ∧
-    (p0.process S).queue = expectedPackets (some F) items ++ [Packet.data ⟨cls, id⟩ pl] := by
-  obtain ⟨hw, hv⟩ := C02.wire_is_valid_frame cls id pl
-  intro S
-  have hSne : S ≠ [] := by simp [S, stream, wire]
-  refine ⟨hSne, ?_, ?_⟩
-  · -- all but the last byte
-    have hdl : S.dropLast = items.flatMap Item.bytes ++ (g ++ ([0xB5, 0x62] ++ ([cls, id, pl.length % 256, pl.length / 256]
-        ++ (pl ++ [ckA (body cls id pl)])))) := by
-      have : S = (items.flatMap Item.bytes ++ (g ++ ([0xB5, 0x62] ++ ([cls, id, pl.length % 256, pl.length / 256]
-          ++ (pl ++ [ckA (body cls id pl)]))))) ++ [ckB (body cls id pl)] := by
-        simp [S, stream, wire, body, List.append_assoc]
-      rw [this, List.dropLast_concat]
-    rw [hdl, Parser.process_append, Parser.process_append]
-    obtain ⟨a1, a2, a3⟩ := p0.process_items_init hst items hok
-    obtain ⟨b1, -, b3, -⟩ := (p0.process (items.flatMap Item.bytes)).process_gap g (Or.inl a1) (by simp [a1]) hg
-    obtain ⟨-, c2⟩ := process_frame_butlast ((p0.process (items.flatMap Item.bytes)).process g) b1 cls id pl
-      (ckA (body cls id pl)) hpl
-    rw [c2, b3, a3, hq, hF]; simp
-  · -- the whole stream: the answer is one more item
-    let ans : Item := ⟨g, .frame cls id pl (ckA (body cls id pl)) (ckB (body cls id pl))⟩
-    have hSi : S = (items ++ [ans]).flatMap Item.bytes ++ [] := by
-      simp [S, stream, ans, Item.bytes, Shape.bytes, ← hw]
-    have hok' : ∀ it ∈ items ++ [ans], it.ok := by
-      intro it hit
-      simp only [List.mem_append, List.mem_singleton] at hit
-      rcases hit with h | h
-      · exact hok it h
-      · subst h; exact ⟨hg, hpl⟩
-    obtain ⟨-, -, d3, -⟩ := p0.process_items hst (items ++ [ans]) hok' [] rfl
-    rw [hSi, d3, hq, hF]
-    have hpass : filterPasses (some F) ⟨cls, id⟩ = true := by simpa [filterPasses] using hcid
-    simp [expectedPackets, Item.packets, ans, hv, hpass]
-
-/-- **C06, one attempt of `set()`.** The transmission succeeds, and the bytes delivered by receive
-    calls that start before the deadline are — however they are cut into chunks — benign traffic
-    followed by filler and an ACK-ACK that names the request (or an ACK-NAK), possibly followed by
-    more.  Then `set()` returns that frame, payload intact, and has transmitted exactly once more. -/
-theorem set_attempt_success (env : Env) (reg : Registry) (delay : Nat) (req : Req) (n : Nat) (p : Parser) (lg : Log)
-    (hF : p.filter = some [ackCid, nakCid]) (htx : env.tx lg.sent.length = true)
-    (items : List Item) (hok : ∀ it ∈ items, it.ok) (hquiet : Quiet [ackCid, nakCid] items)
-    (g : List Nat) (hg : noSyncPair g = true) (cid : Cid) (pl : List Nat) (hpl : pl.length ≤ 1000)
-    (hcid : cid ∈ [ackCid, nakCid]) (f : RFrame) (hb : reg.build cid pl = some f)
-    (hans : checkAckNak req.cid f ≠ .other)
-    (hcov : Covers env (lg.now + delay) lg.now lg.nRx (stream items g cid.cls cid.id pl)) :
-    (setLoop env reg delay req (n + 1) p lg).1 = some f ∧
-    (setLoop env reg delay req (n + 1) p lg).2.2.sent = lg.sent ++ [req.wire] := by
-  have hp0 : p.emptyQueue.restart.st = .init ∧ p.emptyQueue.restart.queue = [] ∧
-      p.emptyQueue.restart.filter = some [ackCid, nakCid] := ⟨rfl, rfl, hF⟩
-  obtain ⟨s1, s2, s3⟩ := stream_queues p.emptyQueue.restart hp0.1 hp0.2.1 [ackCid, nakCid] hp0.2.2 items hok hquiet
-    g hg cid.cls cid.id pl hpl hcid
-  have hfind := wait_finds env reg (lg.now + delay) p.emptyQueue.restart (stream items g cid.cls cid.id pl)
-    (expectedPackets (some [ackCid, nakCid]) items) cid pl f s1 s2 hquiet s3 hb lg.now lg.nRx _ hcov []
-    (flushSend env lg req.wire).2 (by simp) rfl rfl
-  have hpe : ({ p.emptyQueue.restart.process [] with queue := [] } : Parser) = p.emptyQueue.restart := rfl
-  rw [hpe] at hfind
-  have hsent := wait_sent env reg (lg.now + delay) p.emptyQueue.restart (flushSend env lg req.wire).2
-  simp only [setLoop]
-  have hok1 : (flushSend env lg req.wire).1 = true := htx
-  simp only [hok1, if_true]
-  have hnow : (flushSend env lg req.wire).2.now = lg.now := rfl
-  rw [hnow]
-  generalize wait env reg (lg.now + delay) p.emptyQueue.restart (flushSend env lg req.wire).2 = res at hfind hsent
-  obtain ⟨fo, p2, lg2⟩ := res
-  simp only at hfind hsent
-  subst hfind
-  simp only [hans, if_false]
-  exact ⟨trivial, hsent⟩
-
-end C06
-
-namespace C06
-open Ubx Spec
-
-/-- **C06, one attempt of `set_mga()`**: the accepting MGA-ACK arrives in time ⇒ it is returned after
-    exactly one more transmission -/
-theorem setMga_attempt_success (env : Env) (reg : Registry) (delay : Nat) (req : Req) (n : Nat) (p : Parser) (lg : Log)
-    (hF : p.filter = some [mgaAckCid]) (htx : env.tx lg.sent.length = true)
-    (items : List Item) (hok : ∀ it ∈ items, it.ok) (hquiet : Quiet [mgaAckCid] items)
-    (g : List Nat) (hg : noSyncPair g = true) (pl : List Nat) (hpl : pl.length ≤ 1000)
-    (f : RFrame) (hb : reg.build mgaAckCid pl = some f) (hans : checkMga f = true)
-    (hcov : Covers env (lg.now + delay) lg.now lg.nRx (stream items g mgaAckCid.cls mgaAckCid.id pl)) :
-    (mgaLoop env reg delay req (n + 1) p lg).1 = some f ∧
-    (mgaLoop env reg delay req (n + 1) p lg).2.2.sent = lg.sent ++ [req.wire] := by
-  have hp0 : p.emptyQueue.restart.st = .init ∧ p.emptyQueue.restart.queue = [] ∧
-      p.emptyQueue.restart.filter = some [mgaAckCid] := ⟨rfl, rfl, hF⟩
-  obtain ⟨s1, s2, s3⟩ := stream_queues p.emptyQueue.restart hp0.1 hp0.2.1 [mgaAckCid] hp0.2.2 items hok hquiet
-    g hg mgaAckCid.cls mgaAckCid.id pl hpl (by simp)
-  have hfind := wait_finds env reg (lg.now + delay) p.emptyQueue.restart (stream items g mgaAckCid.cls mgaAckCid.id pl)
-    (expectedPackets (some [mgaAckCid]) items) mgaAckCid pl f s1 s2 hquiet s3 hb lg.now lg.nRx _ hcov []
-    (flushSend env lg req.wire).2 (by simp) rfl rfl
-  have hpe : ({ p.emptyQueue.restart.process [] with queue := [] } : Parser) = p.emptyQueue.restart := rfl
-  rw [hpe] at hfind
-  have hsent := wait_sent env reg (lg.now + delay) p.emptyQueue.restart (flushSend env lg req.wire).2
-  simp only [mgaLoop]
-  have hok1 : (flushSend env lg req.wire).1 = true := htx
-  simp only [hok1, if_true]
-  have hnow : (flushSend env lg req.wire).2.now = lg.now := rfl
-  rw [hnow]
-  generalize wait env reg (lg.now + delay) p.emptyQueue.restart (flushSend env lg req.wire).2 = res at hfind hsent
-  obtain ⟨fo, p2, lg2⟩ := res
-  simp only at hfind hsent
-  subst hfind
-  simp only [hans, if_true]
-  exact ⟨trivial, hsent⟩
-
-/-- **C06, one attempt of `poll()` for a request that is not configuration class**: the response
-    arrives in time — behind any benign traffic, in any chunking — ⇒ it is returned, decoded by the
-    declared response class, after exactly one more transmission -/
-theorem poll_attempt_success (env : Env) (reg : Registry) (delay : Nat) (req : Req) (n : Nat) (p : Parser) (lg : Log)
-    (hncfg : req.cid.cls ≠ CLASS_CFG)
-    (hF : p.filter = some [req.cid]) (htx : env.tx lg.sent.length = true)
-    (items : List Item) (hok : ∀ it ∈ items, it.ok) (hquiet : Quiet [req.cid] items)
-    (g : List Nat) (hg : noSyncPair g = true) (pl : List Nat) (hpl : pl.length ≤ 1000)
-    (f : RFrame) (hb : reg.build req.cid pl = some f)
-    (hcov : Covers env (lg.now + delay) lg.now lg.nRx (stream items g req.cid.cls req.cid.id pl)) :
-    (pollLoop env reg delay req (n + 1) p lg).1 = some f ∧
-    (pollLoop env reg delay req (n + 1) p lg).2.2.sent = lg.sent ++ [req.wire] := by
-  have hp0 : p.emptyQueue.restart.st = .init ∧ p.emptyQueue.restart.queue = [] ∧
-      p.emptyQueue.restart.filter = some [req.cid] := ⟨rfl, rfl, hF⟩
-  have hcid : (⟨req.cid.cls, req.cid.id⟩ : Cid) = req.cid := rfl
-  obtain ⟨s1, s2, s3⟩ := stream_queues p.emptyQueue.restart hp0.1 hp0.2.1 [req.cid] hp0.2.2 items hok hquiet
-    g hg req.cid.cls req.cid.id pl hpl (by simp)
-  have hfind := wait_finds env reg (lg.now + delay) p.emptyQueue.restart (stream items g req.cid.cls req.cid.id pl)
-    (expectedPackets (some [req.cid]) items) req.cid pl f s1 s2 hquiet s3 hb lg.now lg.nRx _ hcov []
-    (flushSend env lg req.wire).2 (by simp) rfl rfl
-  have hpe : ({ p.emptyQueue.restart.process [] with queue := [] } : Parser) = p.emptyQueue.restart := rfl
-  rw [hpe] at hfind
-  have hsent := wait_sent env reg (lg.now + delay) p.emptyQueue.restart (flushSend env lg req.wire).2
-  have hfc : f.cid = req.cid := (reg.build_some req.cid pl f hb).1
-  simp only [pollLoop]
-  have hok1 : (flushSend env lg req.wire).1 = true := htx
-  simp only [hok1, if_true]
-  have hnow : (flushSend env lg req.wire).2.now = lg.now := rfl
-  rw [hnow, pollAttempt_eq]
-  generalize wait env reg (lg.now + delay) p.emptyQueue.restart (flushSend env lg req.wire).2 = res at hfind hsent
-  obtain ⟨fo, p2, lg2⟩ := res
-  simp only at hfind hsent
-  subst hfind
-  simp only [hfc, if_true, hncfg, if_false]
-  exact ⟨trivial, hsent⟩
-
-end C06
-
-namespace C06
-open Ubx Spec
-
-/-- behind the awaited stream the parser is hunting from `INIT` again, filter unchanged -/
-theorem stream_leaves_init (p0 : Parser) (hst : p0.st = .init) (items : List Item) (hok : ∀ it ∈ items, it.ok)
-    (g : List Nat) (hg : noSyncPair g = true) (cls id : Nat) (pl : List Nat) (hpl : pl.length ≤ 1000) :
-    (p0.process (stream items g cls id pl)).st = .init ∧ (p0.process (stream items g cls id pl)).filter = p0.filter := by
-  obtain ⟨hw, -⟩ := C02.wire_is_valid_frame cls id pl
-  let ans : Item := ⟨g, .frame cls id pl (ckA (body cls id pl)) (ckB (body cls id pl))⟩
-  have hSi : stream items g cls id pl = (items ++ [ans]).flatMap Item.bytes := by
-    simp [stream, ans, Item.bytes, Shape.bytes, ← hw]
-  have hok' : ∀ it ∈ items ++ [ans], it.ok := by
-    intro it hit
-    simp only [List.mem_append, List.mem_singleton] at hit
-    rcases hit with h | h
-    · exact hok it h
-    · subst h; exact ⟨hg, hpl⟩
-  obtain ⟨d1, d2, -⟩ := p0.process_items_init hst (items ++ [ans]) hok'
-  rw [hSi]; exact ⟨d1, d2⟩
-
-/-- **C06, one attempt of `poll()` for a configuration-class request.** The response arrives in time
-    (behind any benign traffic, in any chunking), and the ACK-ACK that names the request arrives in
-    time counted from the moment the response was taken (again behind any benign traffic; it may even
-    have been read by the same receive call) ⇒ `poll()` returns the response, decoded by the declared
-    response class, payload intact, after exactly one more transmission. -/
-theorem poll_cfg_attempt_success (env : Env) (reg : Registry) (delay : Nat) (req : Req) (n : Nat) (p : Parser) (lg : Log)
-    (hcfg : req.cid.cls = CLASS_CFG)
-    (hF : p.filter = some [req.cid, ackCid, nakCid]) (htx : env.tx lg.sent.length = true)
-    (items1 : List Item) (hok1 : ∀ it ∈ items1, it.ok) (hquiet1 : Quiet [req.cid, ackCid, nakCid] items1)
-    (g1 : List Nat) (hg1 : noSyncPair g1 = true) (pl1 : List Nat) (hpl1 : pl1.length ≤ 1000)
-    (f : RFrame) (hb1 : reg.build req.cid pl1 = some f)
-    (items2 : List Item) (hok2 : ∀ it ∈ items2, it.ok) (hquiet2 : Quiet [req.cid, ackCid, nakCid] items2)
-    (g2 : List Nat) (hg2 : noSyncPair g2 = true) (pl2 : List Nat) (hpl2 : pl2.length ≤ 1000)
-    (fa : RFrame) (hb2 : reg.build ackCid pl2 = some fa) (hck : checkAckNak req.cid fa = .ack)
-    (hcov : CoversK env (lg.now + delay) (AckArrives env delay (stream items2 g2 ackCid.cls ackCid.id pl2))
-      lg.now lg.nRx (stream items1 g1 req.cid.cls req.cid.id pl1)) :
-    (pollLoop env reg delay req (n + 1) p lg).1 = some f ∧
-    (pollLoop env reg delay req (n + 1) p lg).2.2.sent = lg.sent ++ [req.wire] := by
-  let F := [req.cid, ackCid, nakCid]
-  have hp0 : p.emptyQueue.restart.st = .init ∧ p.emptyQueue.restart.queue = [] ∧
-      p.emptyQueue.restart.filter = some F := ⟨rfl, rfl, hF⟩
-  obtain ⟨s1, s2, s3⟩ := stream_queues p.emptyQueue.restart hp0.1 hp0.2.1 F hp0.2.2 items1 hok1 hquiet1
-    g1 hg1 req.cid.cls req.cid.id pl1 hpl1 (by simp [F])
-  obtain ⟨i1, i2⟩ := stream_leaves_init p.emptyQueue.restart hp0.1 items1 hok1 g1 hg1 req.cid.cls req.cid.id pl1 hpl1
-  obtain ⟨t1, t2, t3⟩ := stream_queues
-    ({ p.emptyQueue.restart.process (stream items1 g1 req.cid.cls req.cid.id pl1) with queue := [] } : Parser)
-    i1 rfl F (i2.trans hp0.2.2) items2 hok2 hquiet2 g2 hg2 ackCid.cls ackCid.id pl2 hpl2 (by simp [F])
-  have hatt := pollAttempt_cfg_finds env reg req.cid hcfg delay p.emptyQueue.restart hp0.2.1
-    (stream items1 g1 req.cid.cls req.cid.id pl1) _ pl1 f s1 rfl (by rw [s2]; exact hquiet1) (by rw [s2]; exact s3) hb1
-    (stream items2 g2 ackCid.cls ackCid.id pl2) _ pl2 fa t1 rfl (by rw [t2]; exact hquiet2) (by rw [t2]; exact t3) hb2 hck
-    (flushSend env lg req.wire).2 hcov
-  have hsent := pollAttempt_sent env reg req.cid delay (lg.now + delay) p.emptyQueue.restart (flushSend env lg req.wire).2
-  simp only [pollLoop]
-  have hok1' : (flushSend env lg req.wire).1 = true := htx
-  simp only [hok1', if_true]
-  have hnow : (flushSend env lg req.wire).2.now = lg.now := rfl
-  rw [hnow] at hatt ⊢
-  generalize pollAttempt env reg req.cid delay (lg.now + delay) p.emptyQueue.restart (flushSend env lg req.wire).2 = res at hatt hsent
-  obtain ⟨fo, p2, lg2⟩ := res
-  simp only at hatt hsent
-  subst hatt
-  exact ⟨rfl, hsent⟩
-
-end C06
-
-/-! ### k failed attempts, then the answer -/
-namespace C06
-open Ubx Spec
-
-theorem wait_filter (env : Env) (reg : Registry) (deadline : Nat) (p : Parser) (lg : Log) :
-    (wait env reg deadline p lg).2.1.filter = p.filter := (wait_provenance env reg deadline p lg).1
-
-theorem pollWaitAck_filter (env : Env) (reg : Registry) (req : Cid) (deadline : Nat) (p : Parser) (lg : Log) :
-    (pollWaitAck env reg req deadline p lg).2.1.filter = p.filter := by
-  fun_induction pollWaitAck env reg req deadline p lg with
-  | case1 p lg f p' lg' hw hck => have := wait_filter env reg deadline p lg; rw [hw] at this; exact this
-  | case2 p lg f p' lg' hw hck ih => have := wait_filter env reg deadline p lg; rw [hw] at this; rw [ih]; exact this
-  | case3 p lg p' lg' hw => have := wait_filter env reg deadline p lg; rw [hw] at this; exact this
-
-theorem pollAttempt_filter (env : Env) (reg : Registry) (req : Cid) (delay deadline : Nat) (p : Parser) (lg : Log) :
-    (pollAttempt env reg req delay deadline p lg).2.1.filter = p.filter := by
-  fun_induction pollAttempt env reg req delay deadline p lg with
-  | case1 p lg f p' lg' hw hcid hcfg p'' lg'' hack =>
-    have h1 := wait_filter env reg deadline p lg; rw [hw] at h1
-    have h2 := pollWaitAck_filter env reg req (lg'.now + delay) p' lg'; rw [hack] at h2
-    simp only at h1 h2 ⊢; rw [h2, h1]
-  | case2 p lg f p' lg' hw hcid hcfg p'' lg'' hack =>
-    have h1 := wait_filter env reg deadline p lg; rw [hw] at h1
-    have h2 := pollWaitAck_filter env reg req (lg'.now + delay) p' lg'; rw [hack] at h2
-    simp only at h1 h2 ⊢; rw [h2, h1]
-  | case3 p lg f p' lg' hw hcid hcfg => have h1 := wait_filter env reg deadline p lg; rw [hw] at h1; exact h1
-  | case4 p lg f p' lg' hw hcid ih => have h1 := wait_filter env reg deadline p lg; rw [hw] at h1; rw [ih]; exact h1
-  | case5 p lg p' lg' hw => have h1 := wait_filter env reg deadline p lg; rw [hw] at h1; exact h1
-
-/-- the answer to the transmission made at `lg` arrives in time: `set()` -/
-def SetAnswered (env : Env) (reg : Registry) (delay : Nat) (req : Req) (f : RFrame) (lg : Log) : Prop :=
-  env.tx lg.sent.length = true ∧
-  ∃ items g cid pl, (∀ it ∈ items, it.ok) ∧ Quiet [ackCid, nakCid] items ∧ noSyncPair g = true ∧ pl.length ≤ 1000 ∧
-    cid ∈ [ackCid, nakCid] ∧ reg.build cid pl = some f ∧ checkAckNak req.cid f ≠ .other ∧
-    Covers env (lg.now + delay) lg.now lg.nRx (stream items g cid.cls cid.id pl)
-
-/-- "the first `k` attempts of `set()` fail — the transmission fails, nothing acceptable is read before
-    the deadline, or an answer-class frame that is not ours ends the attempt — and then `Q` holds of
-    the log" -/
-def SetFailsThen (env : Env) (reg : Registry) (delay : Nat) (req : Req) (Q : Log → Prop) : Nat → Parser → Log → Prop
-  | 0, _, lg => Q lg
-  | k + 1, p, lg =>
-      let lg1 := (flushSend env lg req.wire).2
-      if (flushSend env lg req.wire).1 then
-        match wait env reg (lg1.now + delay) p.emptyQueue.restart lg1 with
-        | (some f0, p2, lg2) => checkAckNak req.cid f0 = .other ∧ SetFailsThen env reg delay req Q k p2 lg2
-        | (none, p2, lg2) => SetFailsThen env reg delay req Q k p2 (recover lg2)
-      else SetFailsThen env reg delay req Q k p lg1
-
-/-- **C06 for `set()`.** If the first `k` attempts fail and the `k+1`-th transmission is answered
-    correctly and in time, `set()` returns that answer and has made exactly `k+1` transmissions —
-    provided `k+1 ≤ retries+1`. -/
-theorem set_kth (env : Env) (reg : Registry) (delay : Nat) (req : Req) (f : RFrame) (k n : Nat) (hkn : k ≤ n)
-    (p : Parser) (lg : Log) (hF : p.filter = some [ackCid, nakCid])
-    (h : SetFailsThen env reg delay req (SetAnswered env reg delay req f) k p lg) :
-    (setLoop env reg delay req (n + 1) p lg).1 = some f ∧
-    (setLoop env reg delay req (n + 1) p lg).2.2.sent = lg.sent ++ List.replicate (k + 1) req.wire := by
-  induction k generalizing n p lg with
-  | zero =>
-    obtain ⟨htx, items, g, cid, pl, h1, h2, h3, h4, h5, h6, h7, h8⟩ := h
-    exact set_attempt_success env reg delay req n p lg hF htx items h1 h2 g h3 cid pl h4 h5 f h6 h7 h8
-  | succ k ih =>
-    obtain ⟨n', rfl⟩ : ∃ n', n = n' + 1 := ⟨n - 1, by omega⟩
-    have f3 : (flushSend env lg req.wire).2.sent = lg.sent ++ [req.wire] := rfl
-    simp only [SetFailsThen] at h
-    rw [setLoop]
-    cases hok : (flushSend env lg req.wire).1
-    · simp only [hok, Bool.false_eq_true, if_false] at h ⊢
-      obtain ⟨r1, r2⟩ := ih n' (by omega) p _ hF h
-      exact ⟨r1, by rw [r2, f3]; simp [List.replicate_succ]⟩
-    · simp only [hok, if_true] at h ⊢
-      have hws := wait_sent env reg ((flushSend env lg req.wire).2.now + delay) p.emptyQueue.restart (flushSend env lg req.wire).2
-      have hwf := wait_filter env reg ((flushSend env lg req.wire).2.now + delay) p.emptyQueue.restart (flushSend env lg req.wire).2
-      generalize wait env reg ((flushSend env lg req.wire).2.now + delay) p.emptyQueue.restart
-        (flushSend env lg req.wire).2 = res at h hws hwf
-      obtain ⟨fo, p2, lg2⟩ := res
-      have hF2 : p2.filter = some [ackCid, nakCid] := hwf.trans hF
-      cases fo with
-      | none =>
-        simp only at h hws ⊢
-        obtain ⟨r1, r2⟩ := ih n' (by omega) p2 (recover lg2) hF2 h
-        have : (recover lg2).sent = lg2.sent := rfl
-        exact ⟨r1, by rw [r2, this, hws, f3]; simp [List.replicate_succ]⟩
-      | some f0 =>
-        simp only at h hws ⊢
-        obtain ⟨hoth, hrest⟩ := h
-        simp only [hoth, if_true]
-        obtain ⟨r1, r2⟩ := ih n' (by omega) p2 lg2 hF2 hrest
-        exact ⟨r1, by rw [r2, hws, f3]; simp [List.replicate_succ]⟩
-
-/-- the answer to the transmission made at `lg` arrives in time: `set_mga()` -/
-def MgaAnswered (env : Env) (reg : Registry) (delay : Nat) (f : RFrame) (lg : Log) : Prop :=
-  env.tx lg.sent.length = true ∧
-  ∃ items g pl, (∀ it ∈ items, it.ok) ∧ Quiet [mgaAckCid] items ∧ noSyncPair g = true ∧ pl.length ≤ 1000 ∧
-    reg.build mgaAckCid pl = some f ∧ checkMga f = true ∧
-    Covers env (lg.now + delay) lg.now lg.nRx (stream items g mgaAckCid.cls mgaAckCid.id pl)
-
-def MgaFailsThen (env : Env) (reg : Registry) (delay : Nat) (req : Req) (Q : Log → Prop) : Nat → Parser → Log → Prop
-  | 0, _, lg => Q lg
-  | k + 1, p, lg =>
-      let lg1 := (flushSend env lg req.wire).2
-      if (flushSend env lg req.wire).1 then
-        match wait env reg (lg1.now + delay) p.emptyQueue.restart lg1 with
-        | (some f0, p2, lg2) => checkMga f0 = false ∧ MgaFailsThen env reg delay req Q k p2 lg2
-        | (none, p2, lg2) => MgaFailsThen env reg delay req Q k p2 (recover lg2)
-      else MgaFailsThen env reg delay req Q k p lg1
-
-/-- **C06 for `set_mga()`** -/
-theorem setMga_kth (env : Env) (reg : Registry) (delay : Nat) (req : Req) (f : RFrame) (k n : Nat) (hkn : k ≤ n)
-    (p : Parser) (lg : Log) (hF : p.filter = some [mgaAckCid])
-    (h : MgaFailsThen env reg delay req (MgaAnswered env reg delay f) k p lg) :
-    (mgaLoop env reg delay req (n + 1) p lg).1 = some f ∧
-    (mgaLoop env reg delay req (n + 1) p lg).2.2.sent = lg.sent ++ List.replicate (k + 1) req.wire := by
-  induction k generalizing n p lg with
-  | zero =>
-    obtain ⟨htx, items, g, pl, h1, h2, h3, h4, h6, h7, h8⟩ := h
-    exact setMga_attempt_success env reg delay req n p lg hF htx items h1 h2 g h3 pl h4 f h6 h7 h8
-  | succ k ih =>
-    obtain ⟨n', rfl⟩ : ∃ n', n = n' + 1 := ⟨n - 1, by omega⟩
-    have f3 : (flushSend env lg req.wire).2.sent = lg.sent ++ [req.wire] := rfl
-    simp only [MgaFailsThen] at h
-    rw [mgaLoop]
-    cases hok : (flushSend env lg req.wire).1
-    · simp only [hok, Bool.false_eq_true, if_false] at h ⊢
-      obtain ⟨r1, r2⟩ := ih n' (by omega) p _ hF h
-      exact ⟨r1, by rw [r2, f3]; simp [List.replicate_succ]⟩
-    · simp only [hok, if_true] at h ⊢
-      have hws := wait_sent env reg ((flushSend env lg req.wire).2.now + delay) p.emptyQueue.restart (flushSend env lg req.wire).2
-      have hwf := wait_filter env reg ((flushSend env lg req.wire).2.now + delay) p.emptyQueue.restart (flushSend env lg req.wire).2
-      generalize wait env reg ((flushSend env lg req.wire).2.now + delay) p.emptyQueue.restart
-        (flushSend env lg req.wire).2 = res at h hws hwf
-      obtain ⟨fo, p2, lg2⟩ := res
-      have hF2 : p2.filter = some [mgaAckCid] := hwf.trans hF
-      cases fo with
-      | none =>
-        simp only at h hws ⊢
-        obtain ⟨r1, r2⟩ := ih n' (by omega) p2 (recover lg2) hF2 h
-        have : (recover lg2).sent = lg2.sent := rfl
-        exact ⟨r1, by rw [r2, this, hws, f3]; simp [List.replicate_succ]⟩
-      | some f0 =>
-        simp only at h hws ⊢
-        obtain ⟨hoth, hrest⟩ := h
-        simp only [hoth, Bool.false_eq_true, if_false]
-        obtain ⟨r1, r2⟩ := ih n' (by omega) p2 lg2 hF2 hrest
-        exact ⟨r1, by rw [r2, hws, f3]; simp [List.replicate_succ]⟩
-
-/-- the filter `poll()` installs for a request -/
-def pollFilter (req : Cid) : List Cid := if req.cls = CLASS_CFG then [req, ackCid, nakCid] else [req]
-
-/-- the answer to the transmission made at `lg` arrives in time: `poll()` — the response, followed for
-    a configuration-class request by the ACK-ACK that names it -/
-def PollAnswered (env : Env) (reg : Registry) (delay : Nat) (req : Req) (f : RFrame) (lg : Log) : Prop :=
-  env.tx lg.sent.length = true ∧
-  ∃ items1 g1 pl1, (∀ it ∈ items1, it.ok) ∧ Quiet (pollFilter req.cid) items1 ∧ noSyncPair g1 = true ∧
-    pl1.length ≤ 1000 ∧ reg.build req.cid pl1 = some f ∧
-    if req.cid.cls = CLASS_CFG then
-      ∃ items2 g2 pl2 fa, (∀ it ∈ items2, it.ok) ∧ Quiet (pollFilter req.cid) items2 ∧ noSyncPair g2 = true ∧
-        pl2.length ≤ 1000 ∧ reg.build ackCid pl2 = some fa ∧ checkAckNak req.cid fa = .ack ∧
-        CoversK env (lg.now + delay) (AckArrives env delay (stream items2 g2 ackCid.cls ackCid.id pl2))
-          lg.now lg.nRx (stream items1 g1 req.cid.cls req.cid.id pl1)
-    else Covers env (lg.now + delay) lg.now lg.nRx (stream items1 g1 req.cid.cls req.cid.id pl1)
-
-def PollFailsThen (env : Env) (reg : Registry) (delay : Nat) (req : Req) (Q : Log → Prop) : Nat → Parser → Log → Prop
-  | 0, _, lg => Q lg
-  | k + 1, p, lg =>
-      let lg1 := (flushSend env lg req.wire).2
-      if (flushSend env lg req.wire).1 then
-        match pollAttempt env reg req.cid delay (lg1.now + delay) p.emptyQueue.restart lg1 with
-        | (some _, _, _) => False
-        | (none, p2, lg2) => PollFailsThen env reg delay req Q k p2 (recover lg2)
-      else PollFailsThen env reg delay req Q k p lg1
-
-/-- one answered attempt of `poll()`, either kind of request -/
-theorem poll_attempt (env : Env) (reg : Registry) (delay : Nat) (req : Req) (f : RFrame) (n : Nat)
-    (p : Parser) (lg : Log) (hF : p.filter = some (pollFilter req.cid)) (h : PollAnswered env reg delay req f lg) :
-    (pollLoop env reg delay req (n + 1) p lg).1 = some f ∧
-    (pollLoop env reg delay req (n + 1) p lg).2.2.sent = lg.sent ++ [req.wire] := by
-  obtain ⟨htx, items1, g1, pl1, h1, h2, h3, h4, h5, h6⟩ := h
-  by_cases hcfg : req.cid.cls = CLASS_CFG
-  · rw [if_pos hcfg] at h6
-    simp only [pollFilter, hcfg, if_true] at hF h2
-    obtain ⟨items2, g2, pl2, fa, k1, k2, k3, k4, k5, k6, k7⟩ := h6
-    simp only [pollFilter, hcfg, if_true] at k2
-    exact poll_cfg_attempt_success env reg delay req n p lg hcfg hF htx items1 h1 h2 g1 h3 pl1 h4 f h5
-      items2 k1 k2 g2 k3 pl2 k4 fa k5 k6 k7
-  · rw [if_neg hcfg] at h6
-    simp only [pollFilter, hcfg, if_false] at hF h2
-    exact poll_attempt_success env reg delay req n p lg hcfg hF htx items1 h1 h2 g1 h3 pl1 h4 f h5 h6
-
-/-- **C06 for `poll()`**, every request class -/
-theorem poll_kth (env : Env) (reg : Registry) (delay : Nat) (req : Req) (f : RFrame) (k n : Nat) (hkn : k ≤ n)
-    (p : Parser) (lg : Log) (hF : p.filter = some (pollFilter req.cid))
-    (h : PollFailsThen env reg delay req (PollAnswered env reg delay req f) k p lg) :
-    (pollLoop env reg delay req (n + 1) p lg).1 = some f ∧
-    (pollLoop env reg delay req (n + 1) p lg).2.2.sent = lg.sent ++ List.replicate (k + 1) req.wire := by
-  induction k generalizing n p lg with
-  | zero => exact poll_attempt env reg delay req f n p lg hF h
-  | succ k ih =>
-    obtain ⟨n', rfl⟩ : ∃ n', n = n' + 1 := ⟨n - 1, by omega⟩
-    have f3 : (flushSend env lg req.wire).2.sent = lg.sent ++ [req.wire] := rfl
-    simp only [PollFailsThen] at h
-    rw [pollLoop]
-    cases hok : (flushSend env lg req.wire).1
-    · simp only [hok, Bool.false_eq_true, if_false] at h ⊢
-      obtain ⟨r1, r2⟩ := ih n' (by omega) p _ hF h
-      exact ⟨r1, by rw [r2, f3]; simp [List.replicate_succ]⟩
-    · simp only [hok, if_true] at h ⊢
-      have hws := pollAttempt_sent env reg req.cid delay ((flushSend env lg req.wire).2.now + delay) p.emptyQueue.restart (flushSend env lg req.wire).2
-      have hwf := pollAttempt_filter env reg req.cid delay ((flushSend env lg req.wire).2.now + delay) p.emptyQueue.restart (flushSend env lg req.wire).2
-      generalize pollAttempt env reg req.cid delay ((flushSend env lg req.wire).2.now + delay) p.emptyQueue.restart
-        (flushSend env lg req.wire).2 = res at h hws hwf
-      obtain ⟨fo, p2, lg2⟩ := res
-      have hF2 : p2.filter = some (pollFilter req.cid) := hwf.trans hF
-      cases fo with
-      | none =>
-        simp only at h hws ⊢
-        obtain ⟨r1, r2⟩ := ih n' (by omega) p2 (recover lg2) hF2 h
-        have : (recover lg2).sent = lg2.sent := rfl
-        exact ⟨r1, by rw [r2, this, hws, f3]; simp [List.replicate_succ]⟩
-      | some f0 => simp only at h
-
-end C06
-
-/-! ### failed attempts described by the environment alone -/
-namespace C06
-open Ubx Spec
-
-/-- attempts `1..k` fail for reasons visible in the environment: the transmission fails, or the reads
-    made before the deadline deliver nothing from which a new parser with the request's filter produces
-    a data packet (silence, garbage, NMEA, corrupted or truncated frames, frames that are not awaited);
-    then `Q` holds of the log.  `idle` is the clock walk of the reads of such an attempt. -/
-def EnvFailsThen (env : Env) (F : List Cid) (delay : Nat) (wire : List Nat) (Q : Log → Prop) : Nat → Log → Prop
-  | 0, lg => Q lg
-  | k + 1, lg =>
-      let lg1 := (flushSend env lg wire).2
-      if (flushSend env lg wire).1 then
-        OnlyMarkers env (Parser.fresh (some F)) lg1.nRx (idle env (lg1.now + delay) lg1).nRx ∧
-        EnvFailsThen env F delay wire Q k (recover (idle env (lg1.now + delay) lg1))
-      else EnvFailsThen env F delay wire Q k lg1
-
-theorem set_fails_of_env (env : Env) (reg : Registry) (delay : Nat) (req : Req) (Q : Log → Prop) (k : Nat)
-    (p : Parser) (lg : Log) (hF : p.filter = some [ackCid, nakCid])
-    (h : EnvFailsThen env [ackCid, nakCid] delay req.wire Q k lg) : SetFailsThen env reg delay req Q k p lg := by
-  induction k generalizing p lg with
-  | zero => exact h
-  | succ k ih =>
-    simp only [EnvFailsThen] at h
-    simp only [SetFailsThen]
-    cases hok : (flushSend env lg req.wire).1
-    · simp only [hok, Bool.false_eq_true, if_false] at h ⊢
-      exact ih p _ hF h
-    · simp only [hok, if_true] at h ⊢
-      obtain ⟨hm, hrest⟩ := h
-      obtain ⟨w1, w2⟩ := wait_none_of_markers env reg ((flushSend env lg req.wire).2.now + delay) p.emptyQueue.restart
-        (flushSend env lg req.wire).2 (hm.restarted p hF)
-      have hwf := wait_filter env reg ((flushSend env lg req.wire).2.now + delay) p.emptyQueue.restart (flushSend env lg req.wire).2
-      generalize wait env reg ((flushSend env lg req.wire).2.now + delay) p.emptyQueue.restart
-        (flushSend env lg req.wire).2 = res at w1 w2 hwf
-      obtain ⟨fo, p2, lg2⟩ := res
-      simp only at w1 w2 hwf
-      subst w1 w2
-      exact ih p2 _ (hwf.trans hF) hrest
-
-theorem mga_fails_of_env (env : Env) (reg : Registry) (delay : Nat) (req : Req) (Q : Log → Prop) (k : Nat)
-    (p : Parser) (lg : Log) (hF : p.filter = some [mgaAckCid])
-    (h : EnvFailsThen env [mgaAckCid] delay req.wire Q k lg) : MgaFailsThen env reg delay req Q k p lg := by
-  induction k generalizing p lg with
-  | zero => exact h
-  | succ k ih =>
-    simp only [EnvFailsThen] at h
-    simp only [MgaFailsThen]
-    cases hok : (flushSend env lg req.wire).1
-    · simp only [hok, Bool.false_eq_true, if_false] at h ⊢
-      exact ih p _ hF h
-    · simp only [hok, if_true] at h ⊢
-      obtain ⟨hm, hrest⟩ := h
-      obtain ⟨w1, w2⟩ := wait_none_of_markers env reg ((flushSend env lg req.wire).2.now + delay) p.emptyQueue.restart
-        (flushSend env lg req.wire).2 (hm.restarted p hF)
-      have hwf := wait_filter env reg ((flushSend env lg req.wire).2.now + delay) p.emptyQueue.restart (flushSend env lg req.wire).2
-      generalize wait env reg ((flushSend env lg req.wire).2.now + delay) p.emptyQueue.restart
-        (flushSend env lg req.wire).2 = res at w1 w2 hwf
-      obtain ⟨fo, p2, lg2⟩ := res
-      simp only at w1 w2 hwf
-      subst w1 w2
-      exact ih p2 _ (hwf.trans hF) hrest
-
-theorem poll_fails_of_env (env : Env) (reg : Registry) (delay : Nat) (req : Req) (Q : Log → Prop) (k : Nat)
-    (p : Parser) (lg : Log) (hF : p.filter = some (pollFilter req.cid))
-    (h : EnvFailsThen env (pollFilter req.cid) delay req.wire Q k lg) : PollFailsThen env reg delay req Q k p lg := by
-  induction k generalizing p lg with
-  | zero => exact h
-  | succ k ih =>
-    simp only [EnvFailsThen] at h
-    simp only [PollFailsThen]
-    cases hok : (flushSend env lg req.wire).1
-    · simp only [hok, Bool.false_eq_true, if_false] at h ⊢
-      exact ih p _ hF h
-    · simp only [hok, if_true] at h ⊢
-      obtain ⟨hm, hrest⟩ := h
-      obtain ⟨w1, w2⟩ := wait_none_of_markers env reg ((flushSend env lg req.wire).2.now + delay) p.emptyQueue.restart
-        (flushSend env lg req.wire).2 (hm.restarted p hF)
-      have hwf := wait_filter env reg ((flushSend env lg req.wire).2.now + delay) p.emptyQueue.restart (flushSend env lg req.wire).2
-      rw [pollAttempt_eq]
-      generalize wait env reg ((flushSend env lg req.wire).2.now + delay) p.emptyQueue.restart
-        (flushSend env lg req.wire).2 = res at w1 w2 hwf
-      obtain ⟨fo, p2, lg2⟩ := res
-      simp only at w1 w2 hwf
-      subst w1 w2
-      exact ih p2 _ (hwf.trans hF) hrest
-
-end C06
-
-/-! ### what makes a window fail: no awaited frame in it -/
-namespace C06
-open Ubx Spec
-
-/-- the byte string contains a checksum-valid frame (length ≤ 1000) of an awaited class/id -/
-def ContainsAwaited (F : List Cid) (s : List Nat) : Prop :=
-  ∃ cid pl pre post, cid ∈ F ∧ pl.length ≤ 1000 ∧ s = pre ++ wire cid.cls cid.id pl ++ post
-
-/-- a new parser fed bytes that contain no awaited frame queues nothing but error markers — whatever
-    else they are: nothing at all, noise, NMEA, other UBX messages, corrupted or truncated frames -/
-theorem markers_of_no_awaited (F : List Cid) (s : List Nat) (hs : Bytes s) (h : ¬ ContainsAwaited F s) :
-    Markers ((Parser.fresh (some F)).process s).queue := by
-  obtain ⟨segs, hwf, hbytes, hq, -⟩ := C03.sound (some F) s hs [s] (by simp)
-  have hp : [s].foldl Parser.process (Parser.fresh (some F)) = (Parser.fresh (some F)).process s := rfl
-  rw [hp] at hbytes hq
-  intro x hx
-  rw [hq, segPackets, List.mem_flatMap] at hx
-  obtain ⟨g, hg, hxg⟩ := hx
-  cases x with
-  | crcError => rfl
-  | data cid pl =>
-    exfalso
-    obtain ⟨e1, e2, e3⟩ := C03.data_packet_is_wire (some F) g cid pl (hwf g hg) hxg
-    obtain ⟨l1, l2, hl⟩ := List.append_of_mem hg
-    obtain ⟨pend, hb⟩ : ∃ pend, s = segBytes segs ++ pend := ⟨_, hbytes⟩
-    apply h
-    refine ⟨cid, pl, segBytes l1, segBytes l2 ++ pend, ?_, e2, ?_⟩
-    · simpa [filterPasses] using e3
-    · rw [hb, hl]
-      simp [segBytes, e1, List.append_assoc]
-
-/-- hence a window whose bytes contain no awaited frame is a failing window -/
-theorem onlyMarkers_of_no_awaited (env : Env) (F : List Cid) (j j' : Nat)
-    (hb : ∀ m, j + m ≤ j' → Bytes (rxBytes env j m))
-    (h : ∀ m, j + m ≤ j' → ¬ ContainsAwaited F (rxBytes env j m)) :
-    OnlyMarkers env (Parser.fresh (some F)) j j' :=
-  fun m hm => markers_of_no_awaited F _ (hb m hm) (h m hm)
-
-/-- in particular silence -/
-theorem onlyMarkers_of_silence (env : Env) (F : List Cid) (j j' : Nat)
-    (h : ∀ i, j ≤ i → i < j' → (env.rx i).2 = []) : OnlyMarkers env (Parser.fresh (some F)) j j' := by
-  intro m hm
-  have : rxBytes env j m = [] := by
-    induction m generalizing j with
-    | zero => rfl
-    | succ m ih =>
-      rw [rxBytes, h j (Nat.le_refl _) (by omega), List.nil_append]
-      exact ih (j + 1) (fun i h1 h2 => h i (by omega) h2) (by omega)
-  rw [this]
-  intro x hx
-  simp [Parser.process, Parser.fresh] at hx
-
-end C06
-
 /-! ### the property, at the level of the public methods -/
 namespace C06
 open Ubx Spec
